@@ -9,6 +9,7 @@ RULE = ("operation histories over a small integer universe (ops: add, remove, dr
         "RNG outcome class, driven through whichever random primitive the code calls); "
         "exhaustive for short histories, seeded random for long ones; after EVERY step the implementation's "
         "output, its _edges list (exactly) and its _edge_hashmap (as sorted pairs) are compared with the model; "
+        "elements are small ints, run-time-built tuples or large ints (equal but not identical objects) in turn; "
         "non-trivial = history containing a successful remove; distinct by full op list")
 EXHAUSTIVE = {"quick": True, "thorough": True}
 EXPLANATION = ("general theorems (all histories) in Props/C20.v; correspondence exhaustive over all histories of "
@@ -75,22 +76,42 @@ def generate(rng, tier):
         yield {"ops": ops}
 
 
-def _state(d):
-    return [list(d._edges), sorted([[k, v] for k, v in d._edge_hashmap.items()])]
+def _el(a, mode):
+    """the element for universe member a.  mode 0: the int itself (small ints are interned: identity == equality);
+    mode 1: a sorted 2-tuple BUILT AT RUN TIME on every use (equal but distinct objects, as the rewiring code does with
+    tuple(sorted(e))); mode 2: a large int (> 256, not interned) built at run time."""
+    if mode == 1:
+        return tuple([a, a + 1])
+    if mode == 2:
+        return int(str(1000 + a))
+    return a
+
+
+def _un(x, mode):
+    if mode == 1:
+        return x[0] if isinstance(x, tuple) and len(x) == 2 and x[1] == x[0] + 1 else -1
+    if mode == 2:
+        return x - 1000 if isinstance(x, int) else -1
+    return x
+
+
+def _state(d, mode=0):
+    return [[_un(x, mode) for x in d._edges], sorted([[_un(k, mode), v] for k, v in d._edge_hashmap.items()])]
 
 
 def impl(case):
     from gcmpy.tools.draw_set import DrawSet
     d = DrawSet()
     trace = []
+    mode = case.get("mode", len(case["ops"]) % 3)
     for k, a in case["ops"]:
         out = None
         try:
             if k == 0:
-                d.add(a)
+                d.add(_el(a, mode))
                 out = [0]
             elif k == 1:
-                d.remove(a)
+                d.remove(_el(a, mode))
                 out = [0]
             elif k == 2:
                 # draw "index a of n" through whichever random primitive the code uses
@@ -102,26 +123,26 @@ def impl(case):
                     out = [1]
                 else:
                     with oracles.frac_scripted(oracles.FracScript([Fraction(2 * a + 1, 2 * n)])):
-                        out = [2, d.draw()]
+                        out = [2, _un(d.draw(), mode)]
             elif k == 7:
                 # sweep: one draw per possible RNG outcome class; every member must be drawable
                 n = len(d)
                 seen = []
                 for i in range(n):
                     with oracles.frac_scripted(oracles.FracScript([Fraction(2 * i + 1, 2 * n)])):
-                        x = d.draw()
+                        x = _un(d.draw(), mode)
                     if x not in seen:
                         seen.append(x)
                 out = [5, seen]
             elif k == 3:
-                out = [3, int(a in d)]
+                out = [3, int(_el(a, mode) in d)]
             elif k == 4:
                 out = [4, len(d)]
             else:
-                out = [5, list(iter(d))]
+                out = [5, [_un(x, mode) for x in iter(d)]]
         except (KeyError, IndexError, ValueError):
             out = [1]
-        trace.append([out, _state(d)])
+        trace.append([out, _state(d, mode)])
     return trace
 
 
